@@ -143,6 +143,181 @@ class Model:
             cache[f.path] = FnQ(self.w, cache["inl"].inlined(f))
         return cache[f.path]
 
+    # ------------------------------------------------------------------ side-specialised views
+    def side_subject(self, subj):
+        """base entity E when `subj` denotes the side of an order entry: E.order.side / E.key.0 (the key's side component
+        equals the order's side: typestate key-side rule + K1 create rule); ("const", side) for a key-builder result"""
+        if subj[0] == "field" and subj[2] == "side" and (len(subj) < 4 or subj[3].endswith("Order") or subj[3] == ""):
+            o = subj[1]
+            if o[0] == "field" and o[2] == "order":
+                return o[1]
+            return ("order", o)
+        if subj[0] == "field" and subj[2] == "0":
+            k = subj[1]
+            if k[0] == "field" and k[2] == "key":
+                return k[1]
+            if k[0] == "call":
+                f = self.prog.fn_by_short(k[1])
+                if f is not None and f.crate.name == "bourse_book":
+                    r = self.w.q(f).ret()
+                    if r[0] == "agg" and r[1] == "tuple" and r[3] and r[3][0][0] == "agg" and r[3][0][1] == "adt":
+                        n = r[3][0][2].split("::")[-1]
+                        if n in ("Bid", "Ask"):
+                            return ("const", n)
+        return None
+
+    def _pruned(self, cur, dead):
+        """copy of the view `cur` with the branch edges in `dead` redirected to a fresh `unreachable` block and every block
+        that can no longer be reached emptied (block numbers are kept)"""
+        import copy
+        from analysis.query import FnQ
+        from analysis.facts import Fn, Term
+        j = copy.deepcopy(cur.fn.j)
+        n = len(j["blocks"])
+        j["blocks"].append({"i": n, "cleanup": False, "stmts": [], "term": {"k": "unreachable", "sp": j["blocks"][0]["term"].get("sp") if j["blocks"][0]["term"] else None}})
+        for (b, tgt) in dead:
+            t = j["blocks"][b]["term"]
+            if t["k"] != "switch":
+                continue
+            t["ts"] = [[v, (n if x == tgt else x)] for (v, x) in t["ts"]]
+            if t["o"] == tgt:
+                t["o"] = n
+        reach = set()
+        st_ = [0]
+        byi = {bj["i"]: bj for bj in j["blocks"]}
+        while st_:
+            x = st_.pop()
+            if x in reach:
+                continue
+            reach.add(x)
+            tj = byi[x]["term"]
+            if tj:
+                st_.extend(Term(tj).succs())
+        for bj in j["blocks"]:
+            if bj["i"] not in reach and not bj["cleanup"]:
+                bj["stmts"] = []
+                bj["term"] = {"k": "unreachable", "sp": (bj["term"] or {}).get("sp")}
+        return FnQ(self.w, Fn(j, cur.fn.crate))
+
+    def _threaded(self, cur):
+        """jump threading: a block that only switches on a value joined from several predecessors
+        (`let filled = self.trading && self.match_order(..); if !filled { .. }`) is duplicated per predecessor, so that each
+        incoming path tests its own value (constants then fold to dead edges).  Semantics-preserving tail duplication; only
+        blocks whose statements define plain temporaries are duplicated, never loop heads.  Returns (view, changed)."""
+        import copy
+        from analysis.query import FnQ
+        from analysis.facts import Fn
+        body = cur.body
+        preds = body.preds()
+        heads = set(body.loop_heads())
+        live = cur.cfg.reach_from(0)
+        mem = cur.ev.memory_locals()
+        j = None
+        for blk in body.blocks:
+            b = blk.i
+            t = blk.term
+            if b not in live or blk.cleanup or t is None or t.k != "switch" or b in heads or t.discr.place is None or t.discr.place.proj:
+                continue
+            ps = sorted({p for p in preds[b] if p in live and not body.blocks[p].cleanup})
+            if len(ps) < 2:
+                continue
+            if not all(st.k == "assign" and st.place.is_local() and st.place.local not in mem for st in blk.stmts):
+                continue
+            # the switched value, traced to what enters the block
+            L = t.discr.place.local
+            for st in reversed(blk.stmts):
+                if st.place.local == L:
+                    src = st.rv.place if st.rv.k == "discr" else (st.rv.ops[0].place if st.rv.k == "use" and st.rv.ops and st.rv.ops[0].place is not None else None)
+                    if src is None or src.proj:
+                        L = None
+                    else:
+                        L = src.local
+                    break
+            if L is None or L in mem:
+                continue
+            defs = cur.ev.reaching_defs(L, (b, 0))
+            if len({d[1] for d in defs}) < 2:
+                continue
+            if j is None:
+                j = copy.deepcopy(cur.fn.j)
+            for p in ps[1:]:
+                n = len(j["blocks"])
+                nb = copy.deepcopy(cur.fn.j["blocks"][b])
+                nb["i"] = n
+                j["blocks"].append(nb)
+                pt = j["blocks"][p]["term"]
+                k = pt["k"]
+                if k == "goto":
+                    pt["t"] = n
+                elif k == "switch":
+                    pt["ts"] = [[v, (n if x == b else x)] for (v, x) in pt["ts"]]
+                    if pt["o"] == b:
+                        pt["o"] = n
+                elif k in ("drop", "assert", "call"):
+                    if pt.get("t") == b:
+                        pt["t"] = n
+                elif k == "other":
+                    pt["succ"] = [(n if x == b else x) for x in pt.get("succ", [])]
+            break      # one block per round (predecessor lists change)
+        if j is None:
+            return cur, False
+        return FnQ(self.w, Fn(j, cur.fn.crate)), True
+
+    def sv(self, f, S):
+        """whole-operation view of `f` specialised to the case "the order the operation is about is on side S": branch
+        edges that test that order's side (order.side, the stored key's side component, a side parameter bound to either, a
+        freshly built key's side component) against the other side are cut and everything only they reach is emptied, so
+        that joins over the two sides (`let key = match side { Bid => get_bid_key(..), Ask => get_ask_key(..) }`) collapse
+        to the S alternative.  Sound for rules that quantify over paths: every concrete execution with that order on side S
+        follows a path of the S view.  When several different entities have their side tested, the entries looked up at the head of
+        a queue (passive orders) are left alone."""
+        import copy
+        from analysis.query import FnQ
+        from analysis.facts import Fn
+        from analysis.typestate import same
+        cache = self.__dict__.setdefault("_sviews", {})
+        if (f.path, S) in cache:
+            return cache[(f.path, S)]
+        cur = self.ov(f)
+        for _round in range(40):
+            body = cur.body
+            subjects = []
+            edges = []
+            for blk in body.blocks:
+                t = blk.term
+                if blk.cleanup or not t or t.k != "switch":
+                    continue
+                for tgt in set(body.succs(blk.i)):
+                    for a in cur.cfg.edge_atoms(blk.i, tgt):
+                        if a[0] == "variant" and a[2] and set(a[2]) <= {"Bid", "Ask"}:
+                            e = self.side_subject(a[1])
+                            if e is not None:
+                                edges.append((blk.i, tgt, e, a[2]))
+                                if e[0] != "const" and not any(same(e, x) for x in subjects):
+                                    subjects.append(e)
+            # the order the operation is about: not an entry looked up at the head of a queue (those are the passive orders)
+            from analysis.origin import walk as _walk
+            primary = [e for e in subjects if not any(x[0] == "call" and x[4] == "best_order_idx" for x in _walk(e))]
+            if len(primary) > 1:
+                primary = [e for e in primary if any(x[0] == "param" and x[2] == "order_id" for x in _walk(e))]
+            dead = set()
+            for (b, tgt, e, names) in edges:
+                if e[0] == "const":
+                    if e[1] not in names:
+                        dead.add((b, tgt))
+                elif any(same(e, x) for x in primary) and S not in names:
+                    dead.add((b, tgt))
+            dead |= cur.cfg.dead_edges()      # (constant conditions, exhausted `otherwise` arms)
+            dead = {(b, t) for (b, t) in dead if cur.body.blocks[t].term is None or cur.body.blocks[t].term.k != "unreachable"}
+            if not dead:
+                cur, changed = self._threaded(cur)
+                if not changed:
+                    break
+                continue
+            cur = self._pruned(cur, dead)
+        cache[(f.path, S)] = cur
+        return cur
+
     def stamp_fn(self):
         """the queue-stamp method: returns max(clock, counter) and stores result + 1 in the counter"""
         if "_stamp_fn" not in self.__dict__:
